@@ -99,6 +99,35 @@ impl Endpoint {
             DtlsState::Failed => 'F', DtlsState::Closed => 'X',
         }
     }
+    /// what `subscribe_state()` (the watch channel upper layers wait on) currently shows
+    pub fn watch_letter(&self) -> char {
+        match &*self.dtls.subscribe_state().borrow() {
+            DtlsState::New => 'N', DtlsState::Handshaking => 'H', DtlsState::Connected(..) => 'C',
+            DtlsState::Failed => 'F', DtlsState::Closed => 'X',
+        }
+    }
+    /// A thread that keeps reading `subscribe_state()` while the run loop is polled, so that a value published
+    /// only transiently (e.g. `Connected` sent before a check that then fails) is seen with high probability —
+    /// upper layers (SCTP, SRTP set-up) act on whatever they see there.
+    pub fn spy(&self) -> WatchSpy {
+        let rx = self.dtls.subscribe_state();
+        let stop = Arc::new(std::sync::atomic::AtomicBool::new(false));
+        let seen = Arc::new(std::sync::atomic::AtomicU8::new(0));
+        let (stop2, seen2) = (stop.clone(), seen.clone());
+        let handle = std::thread::spawn(move || {
+            while !stop2.load(std::sync::atomic::Ordering::Relaxed) {
+                let bit = match &*rx.borrow() { DtlsState::New => 1u8, DtlsState::Handshaking => 2, DtlsState::Connected(..) => 4, DtlsState::Failed => 8, DtlsState::Closed => 16 };
+                seen2.fetch_or(bit, std::sync::atomic::Ordering::Relaxed);
+                std::hint::spin_loop();
+            }
+        });
+        WatchSpy { stop, seen, handle: Some(handle) }
+    }
+    /// state as text: the Mutex state, followed by `!<watch>` if the watch channel disagrees
+    pub fn state_text(&self) -> String {
+        let (m, w) = (self.letter(), self.watch_letter());
+        if m == w { m.to_string() } else { format!("{m}!{w}") }
+    }
     pub fn keys(&self) -> Option<SessionKeys> {
         match self.state() { DtlsState::Connected(c, _) => Some(c.keys.clone()), _ => None }
     }
@@ -179,6 +208,11 @@ pub fn open_rec(key: &[u8], iv: &[u8], r: &PRec) -> (Vec<u8>, Vec<u8>, Option<Ve
     (nonce.to_vec(), a.to_vec(), res)
 }
 
+/// `.n<explicit nonce>` for a protected record (what the receiver will feed the AEAD as nonce tail)
+pub fn nonce_tag(r: &PRec) -> String {
+    if r.epoch > 0 && (21..=23).contains(&r.ctype) && r.body.len() >= 24 { format!(".n{}", crate::hex(&r.body[..8])) } else { String::new() }
+}
+
 pub fn fnv64(bs: &[u8]) -> u64 {
     let mut h = 0xcbf29ce484222325u64;
     for b in bs { h ^= *b as u64; h = h.wrapping_mul(0x100000001b3); }
@@ -224,6 +258,17 @@ pub struct Pair {
     /// (from_client, datagram)
     pub log: Vec<(bool, Vec<u8>)>,
 }
+
+pub struct WatchSpy { stop: Arc<std::sync::atomic::AtomicBool>, seen: Arc<std::sync::atomic::AtomicU8>, handle: Option<std::thread::JoinHandle<()>> }
+impl WatchSpy {
+    /// stop and report whether the watch channel ever showed `Connected`
+    pub fn saw_connected(mut self) -> bool {
+        self.stop.store(true, std::sync::atomic::Ordering::Relaxed);
+        if let Some(h) = self.handle.take() { let _ = h.join(); }
+        self.seen.load(std::sync::atomic::Ordering::Relaxed) & 4 != 0
+    }
+}
+impl Drop for WatchSpy { fn drop(&mut self) { self.stop.store(true, std::sync::atomic::Ordering::Relaxed); } }
 
 pub fn certs() -> (Certificate, Certificate) {
     (rustrtc::transports::dtls::generate_certificate().unwrap(), rustrtc::transports::dtls::generate_certificate().unwrap())
